@@ -31,6 +31,8 @@ enum Op {
     Write(String, u64, Vec<u8>),
     Chmod(String, u32),
     Truncate(String, u64),
+    /// OPEN with O_TRUNC and the given access mode (what the kernel sends under ATOMIC_O_TRUNC)
+    OpenTrunc(String, i32),
     SetXattr(String, Vec<u8>),
     RemoveXattr(String),
 }
@@ -161,6 +163,19 @@ fn apply(o: &mut Ovl, op: &Op) -> Result<(), i32> {
                 return Err(libc::EINVAL);
             }
             c.setattr(ino, kconst("FATTR_SIZE"), &[("size", *sz)]).map(|_| ())
+        }
+        Op::OpenTrunc(p, acc) => {
+            let (ino, m) = resolve(c, p)?;
+            if isdir(m) {
+                return Err(libc::EISDIR);
+            }
+            if m & libc::S_IFMT != libc::S_IFREG {
+                return Err(libc::EINVAL);
+            }
+            let fl = (*acc | libc::O_TRUNC) as u32;
+            let (fh, _) = c.open(ino, fl, false)?;
+            let _ = c.release(ino, fh, fl, false);
+            Ok(())
         }
         Op::SetXattr(p, v) => {
             let (ino, m) = resolve(c, p)?;
@@ -303,6 +318,7 @@ fn apply_model(m: &mut BTreeMap<String, MNode>, op: &Op) -> Result<(), i32> {
                 }
             }
         }
+        Op::OpenTrunc(p, _) => apply_model(m, &Op::Truncate(p.clone(), 0)),
         Op::Truncate(p, sz) => {
             let (d, leaf) = parent_of(m, p)?;
             let dir = model_dir_mut(m, &d).ok_or(libc::ENOENT)?;
@@ -369,7 +385,13 @@ fn gen_op(r: &mut Rng, m: &BTreeMap<String, MNode>) -> Op {
             Op::Write(filep(r), r.below(30), r.bytes(n))
         }
         11 => Op::Chmod(anyp(r), *r.pick(&[0o600u32, 0o644, 0o755, 0o700, 0o444])),
-        12 => Op::Truncate(filep(r), r.below(60)),
+        12 => {
+            if r.chance(1, 3) {
+                Op::OpenTrunc(filep(r), *r.pick(&[libc::O_RDONLY, libc::O_WRONLY, libc::O_RDWR]))
+            } else {
+                Op::Truncate(filep(r), r.below(60))
+            }
+        }
         _ => {
             if r.chance(1, 3) {
                 Op::RemoveXattr(anyp(r))
@@ -489,7 +511,7 @@ pub fn run(args: &Args, rep: &mut Report) {
         for step in 0..nops {
             let op = gen_op(&mut r, &model);
             let op_path = match &op {
-                Op::Write(p, ..) | Op::Chmod(p, _) | Op::Truncate(p, _) | Op::SetXattr(p, _) | Op::Link(p, _) => Some(p.clone()),
+                Op::Write(p, ..) | Op::Chmod(p, _) | Op::Truncate(p, _) | Op::OpenTrunc(p, _) | Op::SetXattr(p, _) | Op::Link(p, _) => Some(p.clone()),
                 _ => None,
             };
             // the object a copy-up would start from
@@ -620,6 +642,7 @@ pub fn run(args: &Args, rep: &mut Report) {
                                     want[*off as usize..end].copy_from_slice(d);
                                 }
                                 Op::Truncate(_, sz) => want.resize(*sz as usize, 0),
+                                Op::OpenTrunc(..) => want.clear(),
                                 _ => {}
                             }
                             if fs::read(&up).unwrap_or_default() != want {
